@@ -47,7 +47,7 @@ def main(tier):
     many = []
     declined_seen = set()
     for f in funcs:
-        has_mv_arg = any(str(a.type).endswith("[:]") for a in f.node.args)
+        has_mv_arg = any(cyfront.tstr(a.type).endswith("[:]") for a in f.node.args)
         n_mv = linabs.count_sites(f)
         if n_mv == 0:
             continue
@@ -126,7 +126,7 @@ def main(tier):
         # cross-check of the invariant proof: the exact bounded walk (3 loop iterations, no weakening)
         # must not find a counterexample at any site that was proved
         for f in funcs:
-            if f.boundscheck or not any(str(a.type).endswith("[:]") for a in f.node.args) or linabs.count_sites(f) == 0:
+            if f.boundscheck or not any(cyfront.tstr(a.type).endswith("[:]") for a in f.node.args) or linabs.count_sites(f) == 0:
                 continue
             try:
                 b = linabs.Analyzer(f, cex=True, unroll=3).run()
